@@ -6,6 +6,8 @@
    follows). *)
 From Coq Require Import List String Ascii ZArith Bool.
 From AC Require Import Base.Strs Base.Json Gql.Coerce Model.Args Model.Convert Model.Scalars Proofs.ScalarsP.
+From AC Require Py.Ann Py.Pydantic Py.ParseLog Proofs.ParseLogP Model.Results Proofs.ResultsRunP Proofs.ResultsObjP Gql.Schema Gql.Exec.
+From Coq Require Import Permutation.
 Import ListNotations.
 Local Open Scope string_scope.
 
@@ -96,6 +98,45 @@ Theorem C07_passthrough_serialize : forall S t nn v log,
   cfg_ser (scalar_cfg_of S (named_of t)) = None -> occ_ser S t nn v = Some log -> log = [].
 Proof. exact occ_ser_no_ser. Qed.
 Print Assumptions C07_passthrough_serialize.
+
+(* ---- WHOLE RESPONSES (nested objects, lists of objects, fragments as base classes, discriminated unions): the log
+        of parse calls of validating a payload against a class table (Py/ParseLog.v plog: fields along the MRO, later
+        definitions win, alias-then-name lookup, one union member by __typename) is a permutation of the occurrences
+        PRESENT IN THE PAYLOAD (pocc: every key of every response object, matched to its field) - none missed, none
+        twice - for ANY class table, whenever keys are hereditarily unique (uniq: distinct payload keys, distinct
+        field keys, no populate_by_name fallback); and parse never sees null in an accepted payload. ---- *)
+Theorem C07_parse_once_response : forall n cs a j,
+  ParseLog.uniq n cs a j = true -> Permutation (ParseLog.plog n cs a j) (ParseLog.pocc n cs a j).
+Proof. exact ParseLogP.parse_once_response. Qed.
+Print Assumptions C07_parse_once_response.
+
+Theorem C07_parse_never_null : forall n cs enums a j,
+  Pydantic.accepts n cs enums a j = true -> Forall (fun e => snd e <> JNull) (ParseLog.plog n cs a j).
+Proof. exact ParseLogP.parse_never_null. Qed.
+Print Assumptions C07_parse_never_null.
+
+(* composed with C01's theorem for the classes Model/Results.v generates (sub-language op_ok): a conformant response
+   is accepted, and then parse runs on exactly its occurrences, never on null.  The uniqueness guard is evaluated by
+   the check on every driven response (it holds for all of them); proving it from op_ok (cov = true) is left open. *)
+Theorem C07_parse_once_op : forall C S frs fuel kind name sels root own pub' cls g cov fc j n,
+  Results.root_type_name S kind = Results.Ok root ->
+  Results.op_parse fuel C S frs kind name [] sels = Results.Ok (own, pub', false) ->
+  Results.all_classes fuel C S frs (Results.DOp kind name [] sels) = Results.Ok cls ->
+  ResultsObjP.op_ok g cov C S frs root sels = true -> ResultsRunP.no_basemodel own = true ->
+  Exec.conf_op fc S frs root sels j = true -> n >= fuel + 2 ->
+  ParseLog.uniq n cls (Ann.AClass (Results.pascal_s name)) j = true ->
+  Pydantic.accepts n cls (Results.schema_enums S) (Ann.AClass (Results.pascal_s name)) j = true /\
+  Permutation (ParseLog.plog n cls (Ann.AClass (Results.pascal_s name)) j)
+              (ParseLog.pocc n cls (Ann.AClass (Results.pascal_s name)) j) /\
+  Forall (fun e => snd e <> JNull) (ParseLog.plog n cls (Ann.AClass (Results.pascal_s name)) j).
+Proof.
+  intros C S frs fuel kind name sels root own pub' cls g cov fc j n Hr Hop Hall Hok Hnb Hconf Hn Hu.
+  assert (Ha := ResultsObjP.op_accepts C S frs fuel kind name sels root own pub' cls g cov fc j n
+                  Hr Hop Hall Hok Hnb Hconf Hn).
+  split; [exact Ha|]. split; [apply ParseLogP.parse_once_response; exact Hu|].
+  eapply ParseLogP.parse_never_null; exact Ha.
+Qed.
+Print Assumptions C07_parse_once_op.
 
 (* ---- non-vacuity ---- *)
 Example C07_examples :
